@@ -1,2 +1,11 @@
 import WrglModel.Props.C01
-#print axioms Wrgl.C01_placeholder
+#print axioms Wrgl.C01_fact_blockSize
+#print axioms Wrgl.C01_fact_addRowGuard
+#print axioms Wrgl.C01_fact_sortFileChecksAddRow
+#print axioms Wrgl.C01_fact_encodeGuard
+#print axioms Wrgl.C01_fact_offsetWide
+#print axioms Wrgl.C01_keys_exact
+#print axioms Wrgl.C01_unique_exact
+#print axioms Wrgl.C01_overlimit_refused
+#print axioms Wrgl.C01_config_independent
+#print axioms Wrgl.C01_row_roundtrip
